@@ -246,8 +246,9 @@ def specs(tier):
             S.append(_spec('rsa_private', impl, 4, size=1024, var='toolarge'))
             S.append(_spec('rsa_pkcs1_sign', impl, 4, size=1024, hash='sha1'))
             S.append(_spec('rsa_pss_sign', impl, 4, size=1024, hash='sha384', var='salt0'))
+    # the largest supported key reaches the reduced-window (low temporary space) path of modpow_opt
+    S.append(_spec('rsa_private', 'i31', 120, size=4096))
     if not q:
-        S.append(_spec('rsa_private', 'i31', 120, size=4096))
         S.append(_spec('rsa_private', 'i62', 60, size=4096))
         S.append(_spec('rsa_private', 'i15', 300, size=4096))
         S.append(_spec('rsa_private', 'i32', 40, size=2049))
